@@ -602,7 +602,11 @@ def make_osutils(fs, src_size=None, env=None):
             return f
 
         def remove_file(self, filename):
-            idx = fs.op('remove', filename)
+            # contract of the real OSUtils.remove_file: an OSError of os.remove is swallowed (the file stays)
+            try:
+                idx = fs.op('remove', filename)
+            except (Injected, InjectedOS, InjectedTimeout, InjectedConn):
+                return
             fs.files.pop(filename, None)
             fs.done('remove', idx)
 
